@@ -714,11 +714,12 @@ func (s *scanner) readInlineImage() (Operator, error) {
 	// skip whitespace after ID
 	// spec: "the ID operator shall be followed by a single white-space character"
 	// for ASCII filters, we may need to skip additional whitespace
+	// (not when the length is known: the Length bytes start right here)
 	b, _ := s.Peek()
 	if class[b] == space {
 		s.ReadByte()
 	}
-	if isASCIIFilter(filter) {
+	if isASCIIFilter(filter) && length <= 0 {
 		if err := s.SkipWhiteSpace(); err != nil {
 			return Operator{}, err
 		}
